@@ -21,7 +21,7 @@ func c17(tier string) []*explore.Scenario {
 		bound = 2
 	}
 	out = append(out, c17Spoof(), c17Hostile())
-	for _, role := range []string{"none", "stuck-writer", "stuck-writer-flood", "failing-reader", "failing-writer", "failing-both", "dial-error", "slow-dial"} {
+	for _, role := range []string{"none", "stuck-writer", "stuck-writer-flood", "failing-reader", "failing-writer", "failing-writer-live-traffic", "failing-both", "dial-error", "slow-dial"} {
 		out = append(out, c17BadPeer(role, bound))
 	}
 	for _, when := range []string{"before-old-fails", "after-old-fails"} {
@@ -212,6 +212,18 @@ func c17BadPeer(role string, bound int) *explore.Scenario {
 			case "failing-writer":
 				t.Extra["c"] = pc
 				pc.A.WriteFailAt = 0
+			case "failing-writer-live-traffic":
+				// more envelopes for c arrive at the proxy at the very moment its write to c fails
+				t.Extra["c"] = pc
+				pc.A.WriteFailAt = 0
+				fired := false
+				pc.A.OnWriteCall = func(k int, rpc *env.Rpc) {
+					if !fired {
+						fired = true
+						peers["b"].A.Inject(c17Msg(13, "b", "c"))
+						peers["a"].A.Inject(c17Msg(14, "a", "c"))
+					}
+				}
 			case "failing-both":
 				t.Extra["c"] = pc
 				pc.A.WriteFailAt = 0
@@ -262,7 +274,7 @@ func c17BadPeer(role string, bound int) *explore.Scenario {
 				}
 			}
 			switch role {
-			case "failing-reader", "failing-writer", "failing-both", "dial-error":
+			case "failing-reader", "failing-writer", "failing-writer-live-traffic", "failing-both", "dial-error":
 				n := 0
 				for _, d := range t.Disconnects {
 					if d == "c" {
